@@ -7,6 +7,7 @@ the real tokens are serialized by the real parser.Serialize. Two bindings decide
  (B2) the pair (input, serialisation) is written to an ndjson trace and TLC validates it with
       CssRoundTrip.tla: the specification's own tokenizer is applied to both texts and must give
       the same token list, so the verdict does not depend on the tokenizer under test.
+T9 also has U and a hex letter (unicode-range fusion); the block token is also materialised as {} and { }.
 """
 import os
 import re
